@@ -27,7 +27,7 @@ Definition regop_eqb (a b : regop) : bool :=
 
 (* ---------------------------------------------------------------- syntax *)
 Inductive unop := UNeg | ULogNot.
-Inductive binop := BAdd | BSub | BMul | BDiv | BMod | BLogAnd | BLogOr | BLogXor | BShl0 | BShr0 | BShra.
+Inductive binop := BAdd | BSub | BMul | BDiv | BMod | BSDiv | BSMod | BLogAnd | BLogOr | BLogXor | BShl0 | BShr0 | BShra.
 Inductive cmpop := CEq | CUlt | CUle | CUgt | CUge | CSlt | CSle | CSgt | CSge.
 
 Inductive pure :=
@@ -89,7 +89,7 @@ Definition canon (e : effect) : effect := seqn (flat e).
 Definition unop_eqb (a b : unop) := match a, b with UNeg, UNeg | ULogNot, ULogNot => true | _, _ => false end.
 Definition binop_tag (o : binop) : N :=
   match o with BAdd => 0 | BSub => 1 | BMul => 2 | BDiv => 3 | BMod => 4 | BLogAnd => 5 | BLogOr => 6 | BLogXor => 7
-             | BShl0 => 8 | BShr0 => 9 | BShra => 10 end%N.
+             | BShl0 => 8 | BShr0 => 9 | BShra => 10 | BSDiv => 11 | BSMod => 12 end%N.
 Definition cmpop_tag (o : cmpop) : N :=
   match o with CEq => 0 | CUlt => 1 | CUle => 2 | CUgt => 3 | CUge => 4 | CSlt => 5 | CSle => 6 | CSgt => 7 | CSge => 8 end%N.
 
@@ -187,9 +187,20 @@ Fixpoint write_bytes (m : list (Z * Z)) (a v : Z) (n : nat) : list (Z * Z) :=
    the register environment (a parameter of the semantics). *)
 Definition regwidth := regop -> N.
 
+(* a `.new` operand denotes the value its producer wrote into the new bank; for any other operand the
+   new bank holds the old value until this instruction writes it (contract variant V2 of DESIGN App. D) *)
+Definition regop_is_new (r : regop) : bool :=
+  match r with RIsa _ _ n | RExpl _ _ n | RAlias _ n => n | RNreg _ => true | RParam _ => false end.
+
 Definition read_reg (rw : regwidth) (s : mstate) (r : regop) (new : bool) : val :=
-  if new then VBv (rw r) (wrap (rw r) (match lookup_reg r (rnew s) with Some v => v | None => rnew0 s r end))
-  else VBv (rw r) (wrap (rw r) (rold s r)).
+  if new then VBv (rw r) (wrap (rw r) (match lookup_reg r (rnew s) with
+                                        | Some v => v
+                                        | None => if regop_is_new r then rnew0 s r else rold s r end))
+  else VBv (rw r) (wrap (rw r) (match lookup_reg r (rnew s) with Some v => v | None => rold s r end)).
+(* Contract (T4, DESIGN 3.4): READ_REG(op, false) yields the value this instruction last wrote to op,
+   if any, else the old bank; READ_REG(op, true) yields the new bank.  This is the lenient reading:
+   under the strict one (own writes invisible to non-.new reads) more behaviours would count as
+   mistranslated; observations that differ only under the strict reading are never raised. *)
 
 (* ---------------------------------------------------------------- evaluation of pures *)
 Definition bin_sem (o : binop) (w : N) (x y : Z) : option Z :=
@@ -199,6 +210,8 @@ Definition bin_sem (o : binop) (w : N) (x y : Z) : option Z :=
   | BMul => Some (wrap w (x * y))
   | BDiv => if y =? 0 then Some (pow2 w - 1) else Some (x / y)
   | BMod => if y =? 0 then Some x else Some (x mod y)
+  | BSDiv => if y =? 0 then Some (pow2 w - 1) else Some (wrap w (Z.quot (sval w x) (sval w y)))
+  | BSMod => if y =? 0 then Some x else Some (wrap w (Z.rem (sval w x) (sval w y)))
   | BLogAnd => Some (Z.land x y)
   | BLogOr => Some (Z.lor x y)
   | BLogXor => Some (Z.lxor x y)
